@@ -56,6 +56,8 @@ def run_scenario(scn, idx=0, tag="rt"):
         except ValueError:
             res = {"log": [], "overlaps": [], "crash": (out[-300:] + p.stderr.decode("utf-8", "replace")[-1200:])}
         res["exit"] = p.returncode
+        if p.returncode == 3:
+            res["stderr"] = p.stderr.decode("utf-8", "replace")[-12000:]
     except subprocess.TimeoutExpired:
         res = {"log": [], "overlaps": [], "crash": "subprocess timeout"}
     res["wall"] = round(time.time() - t0, 2)
@@ -210,6 +212,9 @@ class Builder:
         pid = self.np
         self.np += 1
         spec = {"flavour": flavour, "script": script}
+        if self.rng.random() < 0.15:
+            # not a plain function: a decorated one, a lambda, a callable object, a bound method
+            spec["shape"] = self.rng.choice(["wrapped", "lambda", "object", "method"])
         if cleanup:
             spec["cleanup"] = cleanup
         if args:
@@ -575,6 +580,18 @@ def gen_exec(rng):
     h.append(["sleep", 0.05])
     calls = []
     cross = rng.choice([("asyncio", "trio"), ("trio", "asyncio")])
+    if rng.random() < 0.4:
+        # payloads registered before the start whose FIRST action is an execute: the runners are up as soon as any
+        # payload runs, whatever else of the runtime is still on its way up
+        for _ in range(rng.choice([1, 2, 3])):
+            cfl = rng.choice(FLS)
+            fl = rng.choice([f for f in FLS if f != cfl and (cfl == "threading" or f == "threading" or (cfl, f) == cross)] or ["threading"])
+            body = [["step"]] if (fl == "threading" and cfl != "threading") else [["step"], ["sleep", rng.choice([0, 0.005])]]
+            end = [] if rng.random() < 0.3 else [rnd_failure(rng, allow_base=False)]
+            pid = b.payload(fl, body + end)
+            parent = b.payload(cfl, [["execute", 0, pid]] + rnd_bystander_script(rng, cfl), rnd_cleanup(rng, cfl))
+            b.main.append(["adopt", 0, parent])
+            calls.append([pid, fl, "early"])
     for _ in range(rng.choice([1, 3, 6, 10, 20])):
         fl = rng.choice(FLS)
         r = rng.random()
@@ -769,6 +786,7 @@ def gen_churn(rng):
     b = Builder(rng, accept_delay=rng.choice([0.02, 0.05]))
     h = [["wait_running", 0]]
     add_bystanders(b, rng, rng.choice([0, 1, 2, 4]), h)
+    slowmo = rng.random() < 0.4      # hold the main thread inside MetaRunner's life-cycle methods (see below)
 
     def workers(n):
         out = []
@@ -792,7 +810,12 @@ def gen_churn(rng):
     for _ in range(rng.choice([0, 1, 1, 2])):
         ws = workers(rng.choice([40, 80, 120]))
         b.helpers.append([["wait_running", 0], ["adopt_many", 0, ws, rng.choice([0.0, 0.0005, 0.002])]])
-    trigger = rng.choice(["shutdown", "shutdown", "shutdown", "sigint", "thread_shutdown", "fail"])
+    if slowmo:
+        # an outside adopter paced so that it is still adopting when the (slowed down) run is on its way out
+        b.helpers.append([["wait_running", 0], ["adopt_many", 0, workers(300), 0.012]])
+    trigger = rng.choice(["shutdown", "shutdown", "sigint", "thread_shutdown", "fail", "fail"])
+    if slowmo and rng.random() < 0.5:
+        trigger = "fail"
     h.append(["sleep", rng.choice([0.0, 0.003, 0.01, 0.03, 0.06])])
     if trigger == "shutdown":
         h.append(["shutdown", 0])
@@ -810,6 +833,13 @@ def gen_churn(rng):
     b.main.append(["accept", 0])
     b.helpers.append(h)
     b.meta = {"family": "churn", "trigger": trigger, "inside": inside}
+    if slowmo:
+        # hold the threads inside the registry functions of MetaRunner (and only there) for many polling cycles
+        names = [q for (f, q) in runner_functions() if f == "meta_runner.py" and q.startswith("MetaRunner.")
+                 and q.split(".")[-1] in ("_manage_runners", "_launch_runners", "_unqueue_payloads", "_aclose_runners", "stop")]
+        b.meta["perturbed"] = "registry"
+        return b.scenario(linger=0.5, timeout=30, perturb={"funcs": names, "p": 0.6, "sleep": rng.choice([0.03, 0.08]),
+                                                          "max": 12, "total": 40, "seed": rng.randrange(10 ** 6)})
     return b.scenario(linger=0.5, timeout=15)
 
 
@@ -1482,8 +1512,12 @@ def main(pid, coq_targets, tier=None, seed=None, replay=None, tie_targets=None, 
             continue
         for k in kinds0:
             tried[k] = tried.get(k, 0) + 1
-        v2, msgs2, _hp2, _b2 = rerun(i)
-        kinds = {m.split(":")[0] for m in msgs} & {m.split(":")[0] for m in msgs2}
+        kinds = set()
+        for _attempt in range(3):      # a timing-dependent complaint counts once the same scenario shows it again
+            v2, msgs2, _hp2, _b2 = rerun(i)
+            kinds = {m.split(":")[0] for m in msgs} & {m.split(":")[0] for m in msgs2}
+            if kinds:
+                break
         if not kinds:
             chk.note("scenario %d: oracle complaint not reproduced on re-run (%s)" % (i, msgs[0][:120]))
             continue
